@@ -224,12 +224,24 @@ def run(ctx):
             break
     # ---- exhaustive small universe: ==, <=, &, -, isdisjoint on all pairs; transitivity on all triples
     uni_fail = []
-    n_uni = 2 if ctx.quick else 8
+    n_uni = 4 if ctx.quick else 12
     set_cases = []
     for u in range(n_uni):
         basis = "inc" if u % 2 else "cum"
-        cells, info = g.cells(layout="regular", basis=basis, n_slices=2, n_periods=2, n_lags=2, values=g.r.choice(["int", "float", "arr_int"]))
-        cells = cells[:5]
+        diff = ["per_occurrence_limit", "loss_details", "country", None][u % 4]
+        cells, info = g.cells(layout="regular", basis=basis, n_slices=2, n_periods=2, n_lags=2,
+                              values=g.r.choice(["int", "float", "arr_int"]), slice_diff=diff)
+        if diff == "per_occurrence_limit":
+            # one unlimited slice next to a limited one (None sorts after every number)
+            from bermuda import Metadata
+            import dataclasses
+
+            m0 = cells[0].metadata
+            for k, c in enumerate(cells):
+                lim = None if c.metadata == m0 else 1000
+                cells[k] = rebuild(c, metadata=dataclasses.replace(c.metadata, per_occurrence_limit=lim))
+        # take cells of BOTH slices
+        cells = cells[:3] + cells[-2:]
         subs = [Triangle([c for k, c in enumerate(cells) if m >> k & 1]) for m in range(32)]
         # second universe: equal but re-typed / re-formatted copies
         alt = [rebuild(c, values={k: (float(v) if isinstance(v, int) else v) for k, v in c.values.items()}) for c in cells]
